@@ -181,7 +181,7 @@ def run(ctx, prop, t, bits, nb):
     ctx.model("IEEECheck.tla", "IEEECheckQuick.cfg", timeout=1200)
     rng = ctx.rng
     L = 64 // nb
-    nsamp = ctx.q(1200, 30000)
+    nsamp = ctx.q(1200, 150000)
     plan = []
     meta = []     # per plan line: (fn, [points per lane])
     allpts = []
@@ -202,7 +202,7 @@ def run(ctx, prop, t, bits, nb):
             meta.append((f[1], pts))
             allpts += pts
     for fn in ([] if ctx.replay else UNARY):
-        pts = points_unary(ctx, fn, bits, nsamp, ctx.q(12, 64))
+        pts = points_unary(ctx, fn, bits, nsamp, ctx.q(12, 128))
         allpts += [(fn, p) for p in pts]
         ordered = sorted(pts, key=lambda b: fpgen.b2f(b, bits))
         shuffled = list(pts)
@@ -215,7 +215,7 @@ def run(ctx, prop, t, bits, nb):
                 plan.append("m1 %s %s 0 %s - - -" % (fn, t, vf.hexrow(vf.pack_lanes(chunk, nb))))
                 meta.append((fn, [(fn, c) for c in chunk]))
     for fn in ([] if ctx.replay else BINARY):
-        pts = points_binary(ctx, fn, bits, ctx.q(1200, 30000))
+        pts = points_binary(ctx, fn, bits, ctx.q(1200, 150000))
         allpts += [(fn, x, y) for x, y in pts]
         for i in range(0, len(pts), L):
             chunk = pts[i:i + L]
